@@ -344,6 +344,10 @@ int vmd_server_run(const VmdServerConfig *cfg) {
      * (crc32_init() in nvm_format.c is not synchronised). */
     (void)nvm_crc32((const uint8_t *)"", 0);
 
+    /* Same for the FFI loader: sessions that fall back to in-process FFI test its
+     * `initialized` flag without the lock (ffi_loader_is_initialized). */
+    vm_ffi_init();
+
     /* Create socket */
     int server_fd = socket(AF_UNIX, SOCK_STREAM, 0);
     if (server_fd < 0) {
